@@ -3,6 +3,7 @@ package main
 import (
 	"go/token"
 	"go/types"
+	"strings"
 
 	"golang.org/x/tools/go/ssa"
 )
@@ -47,6 +48,154 @@ func chanOpsOnField(fn *ssa.Function, typName, field string) []chanOp {
 	return out
 }
 
+type closeSite struct {
+	fn    *ssa.Function
+	ins   ssa.Instruction
+	depth int
+}
+
+// closedGuarded decides clause (c) of C16-R3 for one send instruction.
+func closedGuarded(c *Ctx, e *lckEngine, fn *ssa.Function, send ssa.Instruction, closes []closeSite) (bool, string) {
+	if len(closes) == 0 {
+		return false, "no close site"
+	}
+	// G and flag from the close sites
+	var G, flag string
+	for i, cs := range closes {
+		at, _ := e.analyse(cs.fn)
+		var g string
+		for class, mode := range at[cs.ins] {
+			if mode >= modeWrite && strings.HasPrefix(class, wsPkg+".Connection.") {
+				g = class
+			}
+		}
+		if g == "" {
+			return false, "close(conn.send) in " + fnKey(cs.fn) + " holds no Connection mutex exclusively"
+		}
+		f := ""
+		eachInstr(cs.fn, func(_ *ssa.BasicBlock, _ int, x ssa.Instruction) {
+			st, ok := x.(*ssa.Store)
+			if !ok || !isConstBool(st.Val, true) || at[x][g] < modeWrite {
+				return
+			}
+			if named, fld, ok := fieldOf(st.Addr); ok && named.Obj().Name() == "Connection" {
+				f = fld
+			}
+		})
+		if f == "" {
+			return false, "close(conn.send) in " + fnKey(cs.fn) + " sets no closed flag under " + short(g)
+		}
+		if i > 0 && (g != G || f != flag) {
+			return false, "close sites disagree on the guard (" + short(G) + "/" + flag + " vs " + short(g) + "/" + f + ")"
+		}
+		G, flag = g, f
+	}
+	at, _ := e.analyse(fn)
+	if at[send][G] < modeRead {
+		return false, "the send does not hold " + short(G)
+	}
+	var loads []ssa.Value
+	eachInstr(fn, func(_ *ssa.BasicBlock, _ int, x ssa.Instruction) {
+		if u, ok := x.(*ssa.UnOp); ok && u.Op == token.MUL && loadedFromField(u, "Connection", flag) && at[x][G] >= modeRead {
+			loads = append(loads, u)
+		}
+	})
+	if len(loads) == 0 {
+		return false, "Connection." + flag + " is never read under " + short(G) + " before the send"
+	}
+	q := &pathQuery{fn: fn, target: func(x ssa.Instruction) bool { return x == send },
+		cutEdge: func(b *ssa.BasicBlock, si int) bool {
+			for _, l := range loads {
+				if known, val := boolOnEdge(b, si, l); known && !val {
+					return true
+				}
+			}
+			return false
+		}}
+	if hit, _ := q.fromEntry(); hit != nil {
+		return false, "a path reaches the send without the Connection." + flag + "==false outcome"
+	}
+	// the lock must be held continuously from the flag test to the send: no instruction that lies between a
+	// guarded load and the send (reachable from the load and reaching the send) may find G released
+	reachFwd := func(from *ssa.BasicBlock) map[*ssa.BasicBlock]bool {
+		seen := map[*ssa.BasicBlock]bool{}
+		var walk func(b *ssa.BasicBlock)
+		walk = func(b *ssa.BasicBlock) {
+			for _, s := range b.Succs {
+				if !seen[s] {
+					seen[s] = true
+					walk(s)
+				}
+			}
+		}
+		walk(from)
+		return seen
+	}
+	reachBwd := map[*ssa.BasicBlock]bool{}
+	var walkB func(b *ssa.BasicBlock)
+	walkB = func(b *ssa.BasicBlock) {
+		for _, p := range b.Preds {
+			if !reachBwd[p] {
+				reachBwd[p] = true
+				walkB(p)
+			}
+		}
+	}
+	walkB(send.Block())
+	for _, l := range loads {
+		lb := l.(ssa.Instruction).Block()
+		fwd := reachFwd(lb)
+		for _, b := range fn.Blocks {
+			between := (fwd[b] || b == lb) && (reachBwd[b] || b == send.Block())
+			if !between {
+				continue
+			}
+			inRange := b != lb || fwd[lb]
+			for _, x := range b.Instrs {
+				if b == lb && !fwd[lb] && x == l.(ssa.Instruction) {
+					inRange = true
+					continue
+				}
+				if b == send.Block() && !reachBwd[b] && x == send {
+					break
+				}
+				if inRange && at[x][G] < modeRead {
+					return false, short(G) + " is released between the closed-flag test and the send"
+				}
+			}
+		}
+	}
+	// holding G while blocking on the channel must not stall the closer: a plain send, or a blocking select with no
+	// arm released by the closer before it takes G exclusively, leaves closeSend (hub goroutine) waiting forever
+	// once the peer stops draining.
+	releasedByCloser := false
+	for _, cs := range closes {
+		cat, _ := e.analyse(cs.fn)
+		eachInstr(cs.fn, func(_ *ssa.BasicBlock, _ int, x ssa.Instruction) {
+			if cl, ok := x.(*ssa.Call); ok && callName(cl) == "builtin.close" && !loadedFromField(cl.Call.Args[0], "Connection", "send") && cat[x][G] < modeRead {
+				releasedByCloser = true
+			}
+		})
+	}
+	switch x := send.(type) {
+	case *ssa.Send:
+		return false, "blocking send while holding " + short(G) + ": the closer waits for " + short(G) + " forever when the peer stopped draining (hub deadlock)"
+	case *ssa.Select:
+		if x.Blocking {
+			hasRecv := false
+			for _, st := range x.States {
+				if st.Dir == types.RecvOnly {
+					hasRecv = true
+				}
+			}
+			if !hasRecv || !releasedByCloser {
+				return false, "blocking select-send while holding " + short(G) + " with no arm the closer releases before taking " + short(G) + " (hub deadlock)"
+			}
+		}
+	}
+	return true, ""
+}
+
 func runC16(c *Ctx) {
 	// ---- R1 lockset
 	c.rule("C16-R1", "LCK: Hub.connections/connMu, Hub.connectionStates/stateMu, Hub handler tables/handlerMu, Hub.running/runMu, Room.{connections,metadata,maxConnections}/Room.mu, RoomManager.rooms/mu, Connection.rooms/roomsMu, Connection.Data/mu, Connection.{missedPongs,lastPongTime}/heartbeatMu: every access with the mutex held, writes exclusive (log-only reads listed, not reported)")
@@ -67,29 +216,67 @@ func runC16(c *Ctx) {
 
 	// ---- R2 close after unlink
 	c.rule("C16-R2", "ORD: every close(conn.send) is reached only after, on every path, RoomManager.RemoveConnectionFromAllRooms(conn) (Room.Broadcast sends under Room.mu.RLock and Remove takes the write lock, so this order makes a room send on a closed channel impossible) and after the connection was deleted from Hub.connections")
-	nClose := 0
+	// A close site is a direct close(conn.send) or a call to a closer wrapper: a function that (itself or in one of its
+	// closures, e.g. a sync.Once body) reaches a close site without the unlink order established. The order is then
+	// required at the wrapper's call sites instead (wrapper summary, lifting bound 3).
+	var pending []closeSite
 	for _, fn := range c.srcFuncs(wsPkg) {
-		nInFn := 0
 		for _, op := range chanOpsOnField(fn, "Connection", "send") {
-			if op.kind != "close" {
+			if op.kind == "close" {
+				pending = append(pending, closeSite{fn, op.ins, 0})
+			}
+		}
+	}
+	nClose := len(pending)
+	directCloses := append([]closeSite(nil), pending...)
+	closeFlagStores := map[*ssa.Function]bool{} // closer functions (for R3)
+	nPerFn := map[*ssa.Function]int{}
+	lifted := map[*ssa.Function]bool{}
+	orderOK := func(fn *ssa.Function, ins ssa.Instruction) (bool, []*ssa.BasicBlock, bool, []*ssa.BasicBlock) {
+		q := &pathQuery{fn: fn, target: func(x ssa.Instruction) bool { return x == ins },
+			stop: func(x ssa.Instruction) bool { return isCallTo(x, wsPath+".RoomManager.RemoveConnectionFromAllRooms") }}
+		hit, path := q.fromEntry()
+		q2 := &pathQuery{fn: fn, target: func(x ssa.Instruction) bool { return x == ins },
+			stop: func(x ssa.Instruction) bool {
+				cl, ok := x.(*ssa.Call)
+				return ok && callName(cl) == "builtin.delete" && loadedFromField(cl.Call.Args[0], "Hub", "connections")
+			}}
+		hit2, path2 := q2.fromEntry()
+		return hit == nil, path, hit2 == nil, path2
+	}
+	for len(pending) > 0 {
+		st := pending[0]
+		pending = pending[1:]
+		fn := st.fn
+		closeFlagStores[topParent(fn)] = true
+		ok1, path, ok2, path2 := orderOK(fn, st.ins)
+		if !(ok1 && ok2) && st.depth < 3 {
+			top := topParent(fn)
+			var callers []closeSite
+			for _, pk := range c.modulePkgs() {
+				for _, g := range c.srcFuncs(pk) {
+					eachCall(g, func(call ssa.CallInstruction) {
+						if staticFn(call) == top && topParent(g) != top {
+							callers = append(callers, closeSite{g, call.(ssa.Instruction), st.depth + 1})
+						}
+					})
+				}
+			}
+			if len(callers) > 0 {
+				if !lifted[top] {
+					lifted[top] = true
+					c.info("C16-R2", fnKey(top)+"#closer-wrapper", st.ins.Pos(), "closes Connection.send without establishing the unlink order itself: the order is required at its "+itoa(len(callers))+" call site(s)")
+					pending = append(pending, callers...)
+				}
 				continue
 			}
-			nClose++
-			nInFn++
-			q := &pathQuery{fn: fn, target: func(x ssa.Instruction) bool { return x == op.ins },
-				stop: func(x ssa.Instruction) bool { return isCallTo(x, wsPath+".RoomManager.RemoveConnectionFromAllRooms") }}
-			hit, path := q.fromEntry()
-			c.ob("C16-R2", fnKey(fn)+"#close-send-after-room-unlink-"+itoa(nInFn), op.ins.Pos(), hit == nil,
-				"close(conn.send) can execute while the connection is still a member of rooms: a concurrent Room.Broadcast then sends on a closed channel and panics (no recover in that goroutine => process exit)", c.blockPath(path)...)
-			q2 := &pathQuery{fn: fn, target: func(x ssa.Instruction) bool { return x == op.ins },
-				stop: func(x ssa.Instruction) bool {
-					cl, ok := x.(*ssa.Call)
-					return ok && callName(cl) == "builtin.delete" && loadedFromField(cl.Call.Args[0], "Hub", "connections")
-				}}
-			hit2, path2 := q2.fromEntry()
-			c.ob("C16-R2", fnKey(fn)+"#close-send-after-hub-unlink-"+itoa(nInFn), op.ins.Pos(), hit2 == nil,
-				"close(conn.send) can execute while the connection is still in Hub.connections: the broadcast arm then sends on a closed channel", c.blockPath(path2)...)
 		}
+		nPerFn[fn]++
+		n := itoa(nPerFn[fn])
+		c.ob("C16-R2", fnKey(fn)+"#close-send-after-room-unlink-"+n, st.ins.Pos(), ok1,
+			"close(conn.send) can execute while the connection is still a member of rooms: a concurrent Room.Broadcast then sends on a closed channel and panics (no recover in that goroutine => process exit)", c.blockPath(path)...)
+		c.ob("C16-R2", fnKey(fn)+"#close-send-after-hub-unlink-"+n, st.ins.Pos(), ok2,
+			"close(conn.send) can execute while the connection is still in Hub.connections: the broadcast arm then sends on a closed channel", c.blockPath(path2)...)
 	}
 	if nClose < 1 {
 		c.undecided("C16-R2: no close(conn.send) site found")
@@ -116,7 +303,11 @@ func runC16(c *Ctx) {
 				c.ob("C16-R3", key, op.ins.Pos(), true, "")
 				continue
 			}
-			c.ob("C16-R3", key, op.ins.Pos(), false, "send on Connection.send outside the hub loop and outside Room.mu with no closed-state guard: after the hub closed the channel (disconnect) this send panics")
+			// (c) closed-state guard: the send holds a Connection mutex G that every direct close(conn.send) holds
+			// exclusively together with a store <flag>=true, and every path to the send crosses an edge on which a
+			// load of that flag, made under G, is false.
+			guarded, why := closedGuarded(c, e, fn, op.ins, directCloses)
+			c.ob("C16-R3", key, op.ins.Pos(), guarded, "send on Connection.send outside the hub loop and outside Room.mu with no closed-state guard ("+why+"): after the hub closed the channel (disconnect) this send panics")
 		}
 	}
 
